@@ -8,6 +8,7 @@ package classifier
 import (
 	"bytes"
 	"fmt"
+	"math"
 	"sort"
 	"strings"
 
@@ -158,6 +159,9 @@ type vCase struct {
 	In   []byte
 	Base string // corpus key of the base document ("" for scenarios)
 }
+
+// vCaseThreshold: the threshold of the job that draws the cases (set by corpusScale).
+var vCaseThreshold = 0.8
 
 var vPoolVocabCache = map[string]map[string]bool{}
 
@@ -388,6 +392,61 @@ func vChooseCorpusCase(r *vx.Run, docs []vDoc, families []string) vCase {
 		}
 		sb.WriteString("\n")
 		return vCase{fmt.Sprintf("resplit:%s:%q+%q joined, %q cut after %d", d.Key, w[ji], w[ji+1], w[si], cut), []byte(sb.String()), d.Key}
+	case "headcut":
+		// the document without its first k words (or its last k), for k around the number of words
+		// the job's threshold allows to be missing: round(n*(1-T)) - 2 .. + 1
+		d := docs[r.Choose(len(docs), "doc")]
+		delta := r.Choose(4, "delta") - 2
+		tail := r.Choose(2, "end") == 1
+		w := vWords(vTokenize(d.Bytes)) // the words as the tokenizer sees them: k counts tokens
+		k := int(math.Round(float64(len(w))*(1-vCaseThreshold))) + delta
+		if len(w) < 24 || k < 1 || k >= len(w)-8 {
+			return vCase{"exact:" + d.Key, d.Bytes, d.Key}
+		}
+		kept := w[k:]
+		if tail {
+			kept = w[:len(w)-k]
+		}
+		var sb strings.Builder
+		for i, x := range kept {
+			sb.WriteString(x)
+			if i%12 == 11 {
+				sb.WriteByte('\n')
+			} else {
+				sb.WriteByte(' ')
+			}
+		}
+		sb.WriteString("\n")
+		return vCase{fmt.Sprintf("headcut:%s:%d of %d words cut at the %s", d.Key, k, len(w), map[bool]string{false: "start", true: "end"}[tail]), []byte(sb.String()), d.Key}
+	case "moved":
+		// a word, or a run of three words, of the document moved a few places forward (an adjacent
+		// swap, or across 2, 3, 5 words): nothing is missing or new, only the order differs
+		nd := len(docs)
+		d := docs[r.Choose(nd, "doc")]
+		pos := r.Choose(8, "pos")
+		run := []int{1, 3}[r.Choose(2, "run")]
+		dist := []int{1, 2, 3, 5}[r.Choose(4, "distance")]
+		w := strings.Fields(string(d.Bytes))
+		if len(w) < 24 {
+			return vCase{"exact:" + d.Key, d.Bytes, d.Key}
+		}
+		at := pos * (len(w) - run - dist - 1) / 8
+		moved := append([]string(nil), w[:at]...)
+		moved = append(moved, w[at+run:at+run+dist]...)
+		moved = append(moved, w[at:at+run]...)
+		moved = append(moved, w[at+run+dist:]...)
+		var sb strings.Builder
+		sb.WriteString(vOOVBlock(1, 3, 2))
+		for i, x := range moved {
+			sb.WriteString(x)
+			if i%12 == 11 {
+				sb.WriteByte('\n')
+			} else {
+				sb.WriteByte(' ')
+			}
+		}
+		sb.WriteString("\n" + vOOVBlock(1, 2, 8))
+		return vCase{fmt.Sprintf("moved:%s:%d word(s) at %d moved across %d", d.Key, run, at, dist), []byte(sb.String()), d.Key}
 	case "bigvocab":
 		// the document behind a text with N DISTINCT spellings, N a little below a power of two, so
 		// that the document's own words cross the boundary in the middle of one of its lines; with
